@@ -105,6 +105,18 @@ CHECKS["C03"] = dict(
     note="Names without '/' and NUL; Path::file_stem/extension per std's documented rule. The read side for arbitrary spec-shaped "
          "directories (suffix-less / unknown-suffix files) is not yet covered. " + BASE_NOTE)
 
+CHECKS["C10"] = dict(
+    text="Bounded model checking from MIR of LayerEnv::{read_from_layer_dir, write_to_layer_dir, apply} (+ LayerEnvDelta, Env): bin and "
+         "lib take each of the six kinds (absent, directory, file, symlink to a directory, symlink to a file, dangling symlink) "
+         "symbolically, include/pkgconfig both absent or both directories (quick) / all 6^4 assignments (thorough); none or one explicit "
+         "entry (3 scopes x 4 behaviours on PATH; thorough: 3 variables); on every path all four query scopes x three starting "
+         "environments (unset, arbitrary non-empty, empty) are evaluated. The solver decides that apply equals the statement's table "
+         "(variable, scope, ':' separator, is_dir through symlinks, nothing in other scopes) on top of the CNB rules for the explicit "
+         "entry, and that two read->write cycles leave env/, env.build/, env.launch/ unchanged (fixpoint).",
+    design_ref="DESIGN.md §5 C10",
+    technique="symbolic execution of rustc MIR (mirsym) over a file-system model with symlinks + z3; witness replay on a real temp dir",
+    note="unix path-list separator; explicit-entry semantics taken from the C04 oracle. " + BASE_NOTE)
+
 NOT_YET = "check not built yet in this round (see DESIGN.md §9 build order); no claim is made"
 NOT_APPLICABLE = {}
 ALL = [f"C{i:02d}" for i in range(1, 21)]
